@@ -51,7 +51,7 @@ def has_positional_call(text):
             f = n.func
             name = f.id if isinstance(f, ast.Name) else (f.attr if isinstance(f, ast.Attribute) else None)
             if name in ("Point", "FPoint", "Box", "APoint", "AFrozen", "NT", "TNT", "Cfg", "PModel", "APriv", "PAlias", "Hidden", "AHidden", "PHidden",
-                        "PExtra", "SubPoint", "Point3"):
+                        "PExtra", "SubPoint", "Point3", "HFirst"):
                 return True
     return False
 
